@@ -320,6 +320,19 @@ def run_op(b: Built, i: int, op: dict, source: str = 'inline') -> None:
             lf.defining_origin.file_id.value = op['value']
     elif kind == 'set_sul':
         setattr(b.df.storage_unit_label, op['field'], op['value'])
+    elif kind == 'inplace':
+        # the list an attribute's .value hands out is edited in place (no setter involved)
+        v = getattr(b.handles[op['target']], schema.item_attr_name(op['target_op'], op['kw'])).value
+        if not isinstance(v, list):
+            raise HarnessError(f'in-place edit of a non-list value {type(v).__name__}')
+        if op['how'] == 'pop':
+            v.pop()
+        elif op['how'] == 'dup':
+            v.append(v[0])
+        elif op['how'] == 'clear':
+            v.clear()
+        else:
+            raise HarnessError(op['how'])
     elif kind == 'noop':
         pass
     elif kind == 'rename_set':
